@@ -32,6 +32,16 @@ HOOK_REWRITES = [
      "range verifhook.Ordered(\"matchers\", m.regexpMatchers) {", MODULE + "/pkg/verifshim/verifhook"),
     ("pkg/goDB/conditions/node/resolve.go", r"\bnet\.LookupHost\(",
      "verifhook.LookupHost(", MODULE + "/pkg/verifshim/verifhook"),
+    # scheduling points of the query workers (C11.sched): after a block's columns were decoded, between
+    # filling the comparison key and evaluating the condition, before the entry is added to the result map
+    ("pkg/goDB/DBWorkManager.go", r"(?m)^(\s*)(for wl := range workloadChan \{)",
+     r'\1verifhook.Yield("start")\n\1\2', MODULE + "/pkg/verifshim/verifhook"),
+    ("pkg/goDB/DBWorkManager.go", r"(?m)^(\s*)(bytesRcvdValues = bitpack\.UnpackInto\()",
+     r'\1verifhook.Yield("block")\n\1\2', MODULE + "/pkg/verifshim/verifhook"),
+    ("pkg/goDB/DBWorkManager.go", r"(?m)^(\s*)(conditionalSatisfied = w\.query\.Conditional\.Evaluate\()",
+     r'\1verifhook.Yield("eval")\n\1\2', MODULE + "/pkg/verifshim/verifhook"),
+    ("pkg/goDB/DBWorkManager.go", r"(?m)^(\s*)(resultMap\.SetOrUpdate\(key,)",
+     r'\1verifhook.Yield("update")\n\1\2', MODULE + "/pkg/verifshim/verifhook"),
 ]
 
 
@@ -53,6 +63,8 @@ def rewrite_os_import(src):
 
 def add_import(src, path, name=None):
     line = ('%s "%s"' % (name, path)) if name else '"%s"' % path
+    if re.search(r'(?m)^\s*(?:import\s+)?' + re.escape(line) + r'\s*$', src):
+        return src
     if ('"%s"' % path) in src:
         return src
     m = re.search(r'(?m)^import \(\s*$', src)
